@@ -125,14 +125,16 @@ func VerifC10RegisterPort() {
 		zzverif.Assume(err == nil)
 	}
 	// this session may already hold one port (quota)
-	held := 0
 	if zzverif.Bool("alreadyHoldsOne") {
 		_, err := ctl.RegisterProxy(&msg.NewProxy{ProxyName: "first", ProxyType: typ, RemotePort: 1001})
 		zzverif.Assume(err == nil)
-		held = 1
 	}
 	nListen := len(zzNet.listeners)
 	nUDP := len(zzNet.udpOpen)
+	udpBefore := map[*net.UDPConn]bool{}
+	for c := range zzNet.udpOpen {
+		udpBefore[c] = true
+	}
 	// names are opaque: "dup " (trailing blank) is another name than "dup"
 	name := []string{"a", "dup", "dup "}[zzverif.Choice("name", 3)]
 	port := []int{0, 1000, 1001, 2000, -1, 70000}[zzverif.Choice("remotePort", 6)]
@@ -165,8 +167,8 @@ func VerifC10RegisterPort() {
 		if isUDP {
 			zzverif.Assert(len(zzNet.udpOpen) == nUDP+1, "C09.reg.bound-once")
 			for c, p := range zzNet.udpOpen {
-				if zzNet.udpClosed[c] == 0 && p != 1001 || held == 0 && zzNet.udpClosed[c] == 0 {
-					_ = c
+				if !udpBefore[c] {
+					zzverif.Assert(p == real, "C09.reg.reported-address-is-the-bound-address")
 				}
 			}
 		} else {
